@@ -156,6 +156,15 @@ Proof.
     simpl. pose proof (height_go_le fs f Hf). lia.
 Qed.
 
+Lemma NoDup_app_remove_l {A} (a b : list A) : NoDup (a ++ b) -> NoDup b.
+Proof. induction a as [|x a IH]; intros H; [exact H|]. inversion H; subst. apply IH; assumption. Qed.
+
+Lemma NoDup_app_remove_r {A} (a b : list A) : NoDup (a ++ b) -> NoDup a.
+Proof.
+  induction a as [|x a IH]; intros H; [constructor|]. simpl in H. inversion H as [|? ? Nx ND]; subst.
+  constructor; [|apply IH; exact ND]. intros Hx. apply Nx. apply in_app_iff. left; exact Hx.
+Qed.
+
 Lemma nodup_app_disj {A} (a b : list A) : NoDup (a ++ b) -> forall i, In i a -> ~ In i b.
 Proof.
   induction a as [|x a IH]; intros ND i Hi; [contradiction|]. simpl in ND. inversion ND as [|? ? Nx ND']; subst.
@@ -208,29 +217,47 @@ Proof.
   apply existsb_exists in E as (y & Hy & Q). apply N.eqb_eq in Q. subst y. contradiction.
 Qed.
 
+Lemma visit_level_cons x rest seen : visit_level (x :: rest) seen =
+  match deref_struct x with
+  | Some (id, fs) =>
+      if mem_id id seen then visit_level rest seen
+      else let '(vf, tv, seen') := visit_level rest (id :: seen) in
+           (fs ++ vf, map ftype (filter fanon fs) ++ tv, seen')
+  | None => visit_level rest seen
+  end.
+Proof. reflexivity. Qed.
+
 (* with distinct ids nothing is skipped: one level visits all fields of all structs of the level *)
 Lemma visit_level_complete curr : forall seen, NoDup (ids_of curr) -> (forall i, In i seen -> ~ In i (ids_of curr)) ->
   exists seen', visit_level curr seen = (flat_map struct_fields curr, flat_map children curr, seen') /\
     (forall i, In i seen' <-> In i seen \/ In i (flat_map top_id curr)).
 Proof.
-  induction curr as [|x rest IH]; intros seen ND Dj; simpl.
+  induction curr as [|x rest IH]; intros seen ND Dj.
   - exists seen. split; [reflexivity|]. intros i. simpl. tauto.
   - unfold ids_of in ND, Dj. simpl in ND, Dj. fold (ids_of rest) in ND, Dj.
     pose proof (NoDup_app_remove_l _ _ ND) as NDr.
-    unfold struct_fields at 1, children at 1, top_id at 1, struct_fields at 1.
+    rewrite visit_level_cons.
+    change (flat_map struct_fields (x :: rest)) with (struct_fields x ++ flat_map struct_fields rest).
+    change (flat_map children (x :: rest)) with (children x ++ flat_map children rest).
+    change (flat_map top_id (x :: rest)) with (top_id x ++ flat_map top_id rest).
     destruct (deref_struct x) as [[id fs]|] eqn:D.
-    + assert (In id (emb_ids x)) as Hid.
-      { rewrite emb_ids_unfold. unfold top_id. rewrite D. left; reflexivity. }
+    + assert (struct_fields x = fs) as Es by (unfold struct_fields; rewrite D; reflexivity).
+      assert (children x = map ftype (filter fanon fs)) as Ec by (unfold children; rewrite Es; reflexivity).
+      assert (top_id x = [id]) as Et by (unfold top_id; rewrite D; reflexivity).
+      assert (In id (emb_ids x)) as Hid by (rewrite emb_ids_unfold, Et; left; reflexivity).
       rewrite mem_id_false.
       2:{ intros Hs. apply (Dj id Hs). apply in_app_iff. left; exact Hid. }
       destruct (IH (id :: seen) NDr) as (seen' & E & Hs').
       { intros i [<-|Hi].
         - apply (nodup_app_disj _ _ ND). exact Hid.
         - intros Hr. apply (Dj i Hi). apply in_app_iff. right; exact Hr. }
-      rewrite E. exists seen'. split; [reflexivity|]. intros i. rewrite Hs'. simpl. tauto.
-    + destruct (IH seen NDr) as (seen' & E & Hs').
+      rewrite E, Es, Ec, Et. exists seen'. split; [reflexivity|]. intros i. rewrite Hs'. simpl. tauto.
+    + assert (struct_fields x = []) as Es by (unfold struct_fields; rewrite D; reflexivity).
+      assert (children x = []) as Ec by (unfold children; rewrite Es; reflexivity).
+      assert (top_id x = []) as Et by (unfold top_id; rewrite D; reflexivity).
+      destruct (IH seen NDr) as (seen' & E & Hs').
       { intros i Hi Hr. apply (Dj i Hi). apply in_app_iff. right; exact Hr. }
-      rewrite E. exists seen'. split; [reflexivity|]. intros i. rewrite Hs'. simpl. tauto.
+      rewrite E, Es, Ec, Et. exists seen'. split; [reflexivity|]. intros i. rewrite Hs'. simpl. tauto.
 Qed.
 
 Lemma visit_fields_complete fuel : forall curr seen,
